@@ -16,7 +16,16 @@ Contracts (sidecar) on the REAL functions:
   arbitrary reals (> 0 where they are temperatures/pressures).
 * `Chemical._init_data` for the caller-side obligation of `_init_energies` (Sfus = Hfus/Tm).
 * `IdealTPMixtureModel`, `IdealTMixtureModel`, `IdealEntropyModel`, `Mixture.H/S/xH/xS/xCn`
-  with uninterpreted pure-component models.
+  with uninterpreted pure-component models (A-models), `IdealMixture.from_chemicals` / `create_mixture_model`
+  (model k belongs to chemical k), and `Stream.S` before/after mixing pure streams at equal T and P.
+  `log` is the engine's uninterpreted log (log(a/b) -> log a - log b) plus ground instances of
+  "log x <= log y for 0 < x <= y" and "log 1 = 0" where the entropy of mixing needs them.
+
+Findings on the unchanged tree (see .scratch/C07/repro_*.py):
+  1. IdealEntropyModel adds +n ln x instead of -R n ln x  -> clauses `mixing-term*` of groups `C07/mixture_*`
+     (repair changes doctest digits: known finding).
+  2. `_init_data` leaves Sfus = None for database chemicals -> `C07/sfus_data` (fix_1.diff).
+  3. gas-locked chemical with phase_ref != 'g' loses -R ln(P/P_ref) -> `C07/init_energies_locked` (fix_2.diff).
 
 Every top-level `ensure` is a sentence of the property, not what the code happens to compute.
 """
@@ -541,3 +550,45 @@ def mixture_wiring(w, cfg):
             w.ensure(f'{var} model k is the {var} of chemical k (index order); excess={ex}', ok)
         w.ensure(f'include_excess_energies stored; excess={ex}', mix.include_excess_energies is ex)
     w.canary('canary: models reversed', all(m is getattr(c, 'H') for m, c in zip(mix._H.models, reversed(chems.tuple))))
+
+
+# --------------------------------------------------------------------------- Stream.S before / after mixing pure streams
+
+def stream_configs(tier):
+    out = [{'name': f'N={n};phase={ph}', 'N': n, 'phase': ph} for n in (2, 3) for ph in ('l', 'g')]
+    return out if tier == 'thorough' else out[:2]
+
+
+@group('C07/mixture_stream', configs=stream_configs, loop_free=True,
+       functions=['thermosteam._stream:Stream.S', 'thermosteam._stream:Stream._get_property',
+                  'thermosteam.mixture.mixture:Mixture.S', 'thermosteam.mixture.ideal_mixture_model:IdealEntropyModel.__call__'],
+       assumptions=['A-models: pure-component S are arbitrary (uninterpreted) functions of (phase, T, P)',
+                    'A-log: log is uninterpreted with log(a/b) = log a - log b; ground instances of log x <= log y for 0 < x <= y and log 1 = 0'])
+def mixture_stream(w, cfg):
+    W.reset_caches()
+    n, phase = cfg['N'], cfg['phase']
+    IDs = MIX_IDS[:n]
+    th = W.stub_thermo(w, IDs)
+    T = w.real('T', lo=0., lo_strict=True)
+    P = w.real('P', lo=0., lo_strict=True)
+    one = w.real('one')
+    w.assume(w.eq(one, 1.))
+    w.assume(w.eq(_log(w, one), 0.))                       # A-log: log 1 = 0 (ground instance)
+    inlets, amounts = [], []
+    for k, ID in enumerate(IDs):
+        s, lv = W.stream_on(w, f'in{k}', th, phase, T=T, P=P, present={'default': 'zero', (phase, ID): 'pos'})
+        inlets.append(s); amounts.append(lv[phase, ID])
+    N = w.total(amounts)
+    _assume_log_monotone(w, [(v, N) for v in amounts])
+    S_in = [s.S for s in inlets]
+    pre = [W.snapshot(s) for s in inlets]
+    mixed, _ = W.stream_on(w, 'mixed', th, phase, T=T, P=P, present={'default': 'zero'})
+    mixed.mix_from(inlets, energy_balance=False)
+    w.ensure('mixed stream at the same T and P', w.And(w.eq(mixed.T, T), w.eq(mixed.P, P)))
+    S_out = mixed.S
+    for k, ID in enumerate(IDs):
+        w.ensure(f'pure inlet {k}: S = n s_k(T,P)', w.eq(S_in[k], amounts[k] * w.fn(f'S.{ID}.{phase}')(T, P)))
+    w.ensure('mixing-term => mixing streams at equal T and P never lowers entropy', w.ge(S_out, w.total(S_in)),
+             S_out=str(S_out)[:300])
+    w.ensure('frame: inlets unchanged', w.And(*[W.same_snapshot(w, p0, W.snapshot(s)) for p0, s in zip(pre, inlets)]))
+    w.canary('canary: mixing leaves the entropy unchanged', w.eq(S_out, w.total(S_in)))
